@@ -196,7 +196,9 @@ def parseIso (s : List Char) : Option Int :=
     let (m, r2) := optComp 'M' r1
     let (sec, r3) := optSec r2
     if atEnd r3 then
-      some (h.getD 0 * 3600000000 + m.getD 0 * 60000000 + sec.getD 0)
+      -- `not (m['hours'] or m['minutes'] or m['seconds'])`: a bare "PT" is not a duration
+      if h.isNone && m.isNone && sec.isNone then none
+      else some (h.getD 0 * 3600000000 + m.getD 0 * 60000000 + sec.getD 0)
     else none
   | _ => none
 
@@ -246,8 +248,9 @@ def pgLoop : Nat → List Char → List Kind → Int → Except DErr Int
 /-- the `for m in _pg_parser.finditer(input)` loop. -/
 def parsePg (s : List Char) : Except DErr Int :=
   if s.all isWs then
-    -- only the `error` alternative could match; `.` does not match '\n'
-    if s.all (· == '\n') then .ok 0 else .error .invalid
+    -- either the `error` alternative matches, or (only newlines / empty) nothing matches at
+    -- all and the loop body never runs: `if not seen: raise`
+    .error .invalid
   else pgLoop (s.length + 1) s [] 0
 
 /-! ### `Duration(text)` and `to_iso8601` -/
